@@ -94,7 +94,7 @@ def load_patch_corpus(props=None):
                     continue
                 targets = [t for t in targets if t in props] if kind == "rewrite" else targets
             out.append(dict(id=f"{'seeded' if kind == 'fault' else 'benign'}/{d}", kind=kind, patch=pf, props=targets,
-                            any_of=(kind == "fault")))
+                            any_of=(kind == "fault"), ae_ok=list(m.get("accepted_analysis_error") or [])))
     return out
 
 
@@ -156,7 +156,12 @@ def run_patch_corpus(props, repo, known, verbose=True):
                 ok = False
                 print(f"SELFTEST missed independent change {vid}: {out}")
         else:
-            alarms = [(p_, k_) for (p_, s_, k_) in out if s_ != "silent"]
+            # a documented limitation: the recogniser of a property leaves its fragment on this refactoring (exit 2, no verdict) -
+            # recorded in the patch's meta.json; a *finding* on a behaviour-preserving change is never accepted
+            alarms = [(p_, k_) for (p_, s_, k_) in out if s_ != "silent" and not (s_ == "analysis-error" and p_ in v.get("ae_ok", ()))]
+            noted = [(p_, k_) for (p_, s_, k_) in out if s_ == "analysis-error" and p_ in v.get("ae_ok", ())]
+            if noted:
+                summary["benign_analysis_error_accepted"] = summary.get("benign_analysis_error_accepted", 0) + 1
             if alarms:
                 summary["benign_alarm"] += 1
                 ok = False
